@@ -867,6 +867,18 @@ fn gen_calls(spec: &SchemeSpec, pool: &[MValue], n: usize, docs: &[Doc]) -> Vec<
                             serde_json::to_vec(&val.to_lhs().unwrap()).unwrap()
                         }
                     }
+                    _ if chance(1, 2, "json.nearmiss") => {
+                        // texts a lenient scalar reader takes and a JSON reader does not (and the other way round):
+                        // the Rust API on the same bytes says which
+                        kernel::count("c20.nearmiss_json");
+                        let pre: [&[u8]; 12] = [b"", b"", b"+", b"-", b" ", b"\t\n", b"\x0b", b"\x0c", "\u{a0}".as_bytes(), "\u{2003}".as_bytes(), b"0", b"00"];
+                        let core: [&[u8]; 14] = [b"7", b"0", b"true", b"false", b"null", b"9223372036854775807", b"9223372036854775808", b"1e2", b"1.5", b"0x1f", b"TRUE", b"tru", b"\"7\"", b"1_000"];
+                        let post: [&[u8]; 10] = [b"", b"", b" ", b"\r\n", b"\x0b", b"\x0c", "\u{a0}".as_bytes(), b",", b"\0", b" 1"];
+                        let mut out = pre[choose(12, "json.nm_pre")].to_vec();
+                        out.extend_from_slice(core[choose(14, "json.nm_core")]);
+                        out.extend_from_slice(post[choose(10, "json.nm_post")]);
+                        out
+                    }
                     _ => {
                         let pool: [&[u8]; 6] = [b"1", b"\"s\"", b"[1,\"a\"]", b"{\"k\":1}", b"nul", b"[[\"k\",\"v\"]]"];
                         pool[choose(6, "json.pool")].to_vec()
